@@ -2,7 +2,7 @@ SPECIFICATION TSpec
 CONSTANTS
   Calls = {1, 2, 3}
   Cap = 2
-  Params = {1, 2, 3, 4, 5, 6, 7, 8, 9, 10, 11, 12, 13, 14, 15, 16, 17, 18}
+  Params = {1, 2, 3, 4, 5, 6, 7, 8, 9, 10, 11, 12, 13, 14, 15, 16, 17, 18, 19, 20, 21}
 CONSTRAINT PropInv
 CONSTRAINT HighWater
 INVARIANT NotAccepted
